@@ -19,8 +19,10 @@ import (
 	"net"
 	"os"
 	"path/filepath"
+	"reflect"
 	"sync"
 	"time"
+	"unsafe"
 
 	p4 "github.com/p4lang/p4runtime/go/p4/v1"
 	"github.com/wmnsk/go-pfcp/ie"
@@ -526,6 +528,7 @@ func c13Serve(hasAssoc bool, sessions []c13Sess, seq0 uint64, reports []uint64, 
 		upf:        u,
 		metrics:    c13Metrics{},
 	}
+	c13InitNode(node)
 
 	if hasAssoc {
 		node.pConns.Store(pc.RemoteAddr().String(), pc)
@@ -638,4 +641,14 @@ func init() {
 
 		return nil, fmt.Errorf("unknown kind %q", in.Kind)
 	})
+}
+
+// fields NewPFCPNode initialises besides the ones above (set by reflection so that this file compiles against trees
+// with and without them)
+func c13InitNode(node *PFCPNode) {
+	f := reflect.ValueOf(node).Elem().FieldByName("newPeersDone")
+	if f.IsValid() && f.Kind() == reflect.Chan && f.IsNil() {
+		ch := reflect.MakeChan(f.Type(), 0)
+		reflect.NewAt(f.Type(), unsafe.Pointer(f.UnsafeAddr())).Elem().Set(ch)
+	}
 }
